@@ -51,6 +51,7 @@ Inductive piece :=
 | PL (s : string)                       (* literal text of the f-string *)
 | PV (s : string)                       (* interpolated str *)
 | PI (z : Z)                            (* interpolated int *)
+| PIpad (w : nat) (z : Z)               (* {z:0<w>} : zero-padded int *)
 | PR (q : Q)                            (* interpolated float, printed by repr *)
 | PF (d : Z) (q : Q)                    (* {q:.<d>f} *)
 | PN (n : N)                            (* interpolated file name (interned by the lexer) *)
@@ -196,3 +197,6 @@ Definition zrange (a b : Z) : list Z := map (fun k => (a + Z.of_nat k)%Z) (seq 0
 Fixpoint enum_from {A} (k : Z) (l : list A) : list (Z * A) :=
   match l with [] => [] | a :: r => (k, a) :: enum_from (k + 1) r end.
 Definition enumerate_ {A} (l : list A) : list (Z * A) := enum_from 0 l.
+
+(* itertools.product(a, b) *)
+Definition product_ {A B} (a : list A) (b : list B) : list (A * B) := flat_map (fun x => map (fun y => (x, y)) b) a.
